@@ -67,6 +67,7 @@ class _Timer(object):
         self.callback = callback
         self.args = args
         loop = self.loop
+        loop._register(callback)
         self.due = loop._now + self.after
         loop._seq += 1
         self.token = [self.due, loop._tie(), loop._seq, self]
@@ -171,15 +172,19 @@ class SimLoop(object):
         return r.random() if r is not None else 0.0
 
     # -- scheduling
-    def run_callback(self, func, *args):
-        cb = _Callback(func, args)
-        self._callbacks.append(cb)
+    def _register(self, func):
+        # every greenlet is started (or resumed) through a bound switch/throw
         owner = getattr(func, '__self__', None)
         if owner is not None and hasattr(owner, 'gr_frame'):
             i = id(owner)
             if i not in self._seen:
                 self._seen.add(i)
                 self.greenlets.append(owner)
+
+    def run_callback(self, func, *args):
+        cb = _Callback(func, args)
+        self._callbacks.append(cb)
+        self._register(func)
         return cb
 
     run_callback_threadsafe = run_callback
